@@ -131,7 +131,7 @@ def styles_exact(ctx):
         if ok and eok:
             continue
         # correspondence broke: does one of the property's laws fail on this very input?
-        fail = style_laws(case, inp, code, res)
+        fail = style_laws(case, inp, code, res, nj)
         what = ("transform(%s) differs from the model's transform" % style) if not ok else \
             ("_ensure_iterable gives %r, model %r" % (ecode, eans))
         ctx.violation("%s; %s" % (what, fail or "no law of the statement fails on this input"),
@@ -155,8 +155,22 @@ def same_exact(code, ans):
     return len(code[1]) == len(ans[1]) and all(mat_eq(a, b) for a, b in zip(code[1], ans[1]))
 
 
-def style_laws(case, inp, code, res):
-    """the statement's call-style laws on the real code for this input (independent of the model)"""
+def content_laws(case, pim, d, a):
+    """additivity and the C04 mass oracle for the image `a` the code produced for diagram `d`"""
+    sk = case["skew"]
+    if len(d) >= 2:
+        k = len(d) // 2
+        parts = T(pim, arr(d[:k]), sk) + T(pim, arr(d[k:]), sk)
+        sc = max(1.0, sum(abs(x) for x in total_weight(case, d) if math.isfinite(x)))
+        if not np.allclose(a, parts, rtol=0, atol=TOL * sc):
+            return "image of a %d-point diagram is not the sum of the images of its two halves" % len(d)
+    c = dict(case); c["dgm"] = d
+    bpn, ppn = [float(x) for x in pim._bpnts], [float(x) for x in pim._ppnts]
+    return c04.property_fails(c, a.tolist(), bpn, ppn, tuple(int(x) for x in pim.resolution))
+
+
+def style_laws(case, inp, code, res, nj=None):
+    """the statement's laws on the real code for this input (independent of the model)"""
     pim = imager(case)
     if isinstance(code, str):
         return "transform raised %s on a valid input" % code[4:]
@@ -171,8 +185,8 @@ def style_laws(case, inp, code, res):
             return None if not a.any() else "empty diagram gives a non-zero image"
         inside = T(pim, [arr(d)], case["skew"])
         if not (isinstance(inside, list) and len(inside) == 1 and np.array_equal(inside[0], a)):
-            return "image of the diagram alone differs from its image inside a collection"
-        return None
+            return "image of the diagram alone (n_jobs=%s) differs from its image inside a collection (serial)" % nj
+        return content_laws(case, pim, d, a)
     if code[0] != "imgs" or len(code[1]) != len(inp[1]):
         return "a collection of %d diagrams did not give a list of %d images" % (len(inp[1]), len(inp[1]))
     for d, m in zip(inp[1], code[1]):
@@ -181,7 +195,10 @@ def style_laws(case, inp, code, res):
             return "image shape %s is not the configured resolution %s" % (a.shape, tuple(res))
         alone = T(pim, arr(d), case["skew"])
         if not np.array_equal(alone, a):
-            return "image inside the collection differs from the image of the diagram alone"
+            return "image inside the collection (n_jobs=%s) differs from the image of the diagram alone (serial)" % nj
+        f = content_laws(case, pim, d, a)
+        if f:
+            return f
     return None
 
 
@@ -354,7 +371,7 @@ def replay(ctx, rep):
         st, v, _ = call(pim.transform, arg, skew=c["skew"], n_jobs=c.get("n_jobs"))
         code = ("err:" + v) if st == "err" else (["img", v.tolist()] if isinstance(v, np.ndarray) else
                                                  ["imgs", [np.asarray(x).tolist() for x in v]] if isinstance(v, list) else ["other", None])
-        fail = style_laws(c, inp, code, res)
+        fail = style_laws(c, inp, code, res, c.get("n_jobs"))
         print("code:", code if isinstance(code, str) else code[0], "| law check:", fail or "holds")
         return fail is None
     if op == "schedule":
